@@ -1,1 +1,425 @@
-CHECKS = {}
+"""Scanner-level properties: C03 (chain walk), C08 (filtered output), C14 (statistics), C18 (truncation)."""
+import os, struct, sys, json
+import fplib as L
+import fpgen as G
+from checks_unit import corr, report_dis
+
+
+# ----------------------------------------------------------------- independent oracles
+def chain_walk(data):
+    """independent chain walk: [(offset, hdr, payload)] for a well-framed byte string"""
+    out, o = [], 0
+    while o + 64 <= len(data):
+        off_next = data[o + 8] | (data[o + 9] << 8)
+        out.append((o, data[o:o + 64], data[o + 64:o + off_next]))
+        o += off_next
+    return out
+
+
+def hdr_fields(h):
+    return dict(ver=h[0], fee=h[2] | h[3] << 8, sysid=h[5], off=h[8] | h[9] << 8, size=h[10] | h[11] << 8, link=h[12], pkt=h[13],
+                bc=(h[16] | h[17] << 8) & 0xFFF, orbit=int.from_bytes(h[20:24], 'little'), df=h[24],
+                trig=int.from_bytes(h[32:36], 'little'), page=h[36] | h[37] << 8, stop=h[38], det=int.from_bytes(h[48:52], 'little'))
+
+
+def matches(flt, h):
+    if flt is None: return True
+    k, v = flt
+    f = hdr_fields(h)
+    if k == 'link': return f['link'] == v
+    if k == 'fee': return f['fee'] == v
+    mask = 0b0111000000111111
+    return (f['fee'] & mask) == (v & mask)
+
+
+def flt_token(flt): return '-' if flt is None else f'{flt[0]}:{flt[1]}'
+
+
+def flt_args(flt):
+    if flt is None: return []
+    k, v = flt
+    if k == 'link': return ['-f', str(v)]
+    if k == 'fee': return ['-F', str(v)]
+    return ['-s', f'L{(v >> 12) & 7}_{v & 63}']
+
+
+def make_streams(R, tier, framed_only=False):
+    """(name, pkts) — well-framed streams with arbitrary headers plus conforming streams"""
+    out = []
+    counts = [0, 1, 2, 7, 99, 100, 101, 200, 257] if tier == 'quick' else [0, 1, 2, 3, 50, 99, 100, 101, 199, 200, 201, 300, 1000, 2500]
+    for n in counts:
+        pk = G.random_framed_stream(R, n, max_payload=R.choice([40, 300, 2000]), nlinks=R.randint(1, 6))
+        if pk:
+            pk[0].rdh.update(fee=(R.randint(0, 6) << 12) | R.randint(0, 47), link=R.randint(0, 11), ver=7, sysid=32)
+        out.append((f'framed{n}', pk))
+    # big payloads up to the limit
+    pk = G.random_framed_stream(R, 6, max_payload=10000, nlinks=2)
+    pk[0].rdh.update(fee=0x1003, link=1); pk[2].raw_payload = bytes(R.getrandbits(8) for _ in range(10000)); pk[3].raw_payload = b''
+    out.append(('bigpayload', pk))
+    if not framed_only:
+        for i in range(3 if tier == 'quick' else 30):
+            pk, meta = G.conforming_stream(R)
+            out.append((f'conf{i}', pk))
+    return out
+
+
+def pick_filters(R, pk):
+    flts = [None]
+    if pk:
+        p = R.choice(pk); q = pk[0]
+        flts += [('link', p.rdh['link'] & 0xFF), ('fee', p.rdh['fee'] & 0xFFFF), ('stave', p.rdh['fee'] & 0x703F),
+                 ('link', q.rdh['link'] & 0xFF), ('link', 200), ('fee', 0x7FFF), ('stave', 0x602F)]
+    else:
+        flts += [('link', 0)]
+    return flts
+
+
+# =============================================================== C03
+RDH_ROW_WIDTHS = [6, 7, 7, 6, 8, 6, 10, 5, 12, 11, 10, 9, 5]
+
+
+def parse_view_rdh(stdout):
+    """rows of `view rdh -d`: fixed-width columns (a full 32-bit trigger type fills its column)"""
+    rows = []
+    for l in stdout.decode('utf-8', 'replace').split('\n'):
+        if len(l) > 12 and l[8:9] == ':' and l[:8].strip() and all(c in '0123456789ABCDEF' for c in l[:8].strip()):
+            pos, toks = 11, []
+            for w in RDH_ROW_WIDTHS:
+                toks.append(l[pos:pos + w].strip()); pos += w
+            toks.append(l[pos:].strip())
+            if toks[0].isdigit():
+                rows.append((int(l[:8].strip(), 16), toks))
+    return rows
+
+
+def run_c03(ck, ctx):
+    R, tier = ctx['R'], ctx['tier']
+    streams = make_streams(R, tier)
+    reqs, meta = [], []
+    for name, pk in streams:
+        data = G.encode(pk)
+        for flt in pick_filters(R, pk):
+            for skip in (0, 1):
+                reqs.append(f'scan filter={flt_token(flt)} skip={skip} data={G.hexs(data)}'); meta.append((name, flt, skip, data))
+    bad_idx = set()
+    if ctx['harness_ok']:
+        impl, model, dis = corr(ck, 'scan', reqs)
+        for i, a in enumerate(impl):
+            name, flt, skip, data = meta[i]
+            ck.case((name, flt, skip))
+            exp = [(o, h, b'' if skip else p) for o, h, p in chain_walk(data) if matches(flt, h)]
+            ck.count('packets_expected', len(exp)); ck.count('filter_' + (flt[0] if flt else 'none'))
+            toks = a.split(' | ')[0].split(' ')
+            got = [t for t in toks[1:] if t]
+            ok = toks[0] == f'n={len(exp)}' and len(got) == len(exp)
+            if ok:
+                for g, (o, h, p) in zip(got, exp):
+                    go, gh, gl, g4 = g.split(':')
+                    if int(go) != o or gh != h.hex().upper() or int(gl) != len(p) or int(g4) != int.from_bytes(p[:4], 'little'):
+                        ok = False; break
+            if not ok:
+                bad_idx.add(i)
+                ck.violation('scan', {'what': 'the scanner does not deliver exactly the chained packets (offset / header / payload)',
+                                      'stream': name, 'filter': flt, 'skip_payload': skip, 'input_hex': data.hex()[:200000],
+                                      'expected_n': len(exp), 'implementation': a[:600]})
+        ck.sample(dict(request=reqs[8][:160] + '...', impl=impl[8][:200], model=model[8][:200]))
+        report_dis(ck, 'scan', dis, bad_idx)
+    # CLI level: view rdh -d from file and from pipe, all filters
+    jobs = []
+    for name, pk in streams:
+        if not pk: continue
+        data = G.encode(pk)
+        for flt in pick_filters(R, pk)[:5]:
+            for via in ('file', 'pipe'):
+                jobs.append((name, flt, via, data))
+
+    def job(j):
+        name, flt, via, data = j
+        r = L.run_cli(['view', 'rdh', '-d'] + flt_args(flt), data, via=via, stats=False)
+        return r
+    res = L.pmap(job, jobs)
+    for (name, flt, via, data), r in zip(jobs, res):
+        ck.case(('cli', name, flt, via))
+        exp = [(o, hdr_fields(h)) for o, h, p in chain_walk(data) if matches(flt, h)]
+        rows = parse_view_rdh(r.stdout)
+        ok = r.exit == 0 and len(rows) == len(exp)
+        if ok:
+            for (o, toks), (eo, f) in zip(rows, exp):
+                if o != eo or int(toks[0]) != f['ver'] or int(toks[2]) != f['fee'] or int(toks[4]) != f['off'] or int(toks[5]) != f['link'] \
+                   or int(toks[7]) != f['bc'] or int(toks[8], 16) != f['orbit'] or int(toks[9]) != f['df'] or int(toks[10], 16) != f['trig'] \
+                   or int(toks[11]) != f['page'] or int(toks[12]) != f['stop'] or int(toks[13], 16) != f['det']:
+                    ok = False; break
+        ck.count('cli_' + via)
+        if not ok:
+            ck.violation('view_rdh', {'what': '`view rdh` does not show exactly the chained RDHs with their true offsets and fields',
+                                      'stream': name, 'filter': flt, 'via': via, 'input_hex': data.hex()[:200000], 'exit': r.exit,
+                                      'rows': len(rows), 'expected_rows': len(exp), 'first_rows': rows[:3], 'args': ['view', 'rdh', '-d'] + flt_args(flt)},
+                         key=None)
+
+
+# =============================================================== C08
+def run_c08(ck, ctx):
+    R, tier = ctx['R'], ctx['tier']
+    streams = [s for s in make_streams(R, tier) if s[1]]
+    jobs = []
+    for name, pk in streams:
+        data = G.encode(pk)
+        for flt in pick_filters(R, pk)[1:]:
+            for dest in ('file', 'stdout'):
+                for via in ('file', 'pipe'):
+                    if tier == 'quick' and dest == 'stdout' and via == 'pipe' and len(pk) > 120: continue
+                    jobs.append((name, flt, dest, via, data))
+
+    def job(j):
+        name, flt, dest, via, data = j
+        wd = os.path.join(L.CACHE, 'tmp', f'c08_{os.getpid()}_{id(j)}')
+        os.makedirs(wd, exist_ok=True)
+        if dest == 'file':
+            outp = os.path.join(wd, 'out.raw')
+            r = L.run_cli(flt_args(flt) + ['-o', outp], data, via=via, stats=False, workdir=wd)
+            out = open(outp, 'rb').read() if os.path.exists(outp) else None
+        else:
+            r = L.run_cli(flt_args(flt), data, via=via, stats=False, workdir=wd)
+            out = r.stdout
+        import shutil; shutil.rmtree(wd, ignore_errors=True)
+        return r.exit, out
+    res = L.pmap(job, jobs)
+    reqs, rmeta = [], []
+    for (name, flt, dest, via, data), (exit, out) in zip(jobs, res):
+        ck.case((name, flt, dest, via))
+        exp = b''.join(h + p for o, h, p in chain_walk(data) if matches(flt, h))
+        ck.count('dest_' + dest); ck.count('out_empty' if not exp else 'out_nonempty')
+        if exit != 0 or out != exp:
+            ck.violation('writer', {'what': 'filtered output is not the concatenation of exactly the matching packets',
+                                    'stream': name, 'filter': flt, 'dest': dest, 'via': via, 'input_hex': data.hex()[:200000], 'exit': exit,
+                                    'out_len': None if out is None else len(out), 'expected_len': len(exp)})
+        if dest == 'file' and via == 'file':
+            reqs.append(f'run cmd=none filter={flt_token(flt)} data={G.hexs(data)}'); rmeta.append(exp)
+    # model correspondence on the output bytes
+    model = L.run_driver(reqs)
+    dis = []
+    for q, m, exp in zip(reqs, model, rmeta):
+        s = 7
+        for b in exp: s = (s * 31 + b) % 4294967291
+        if f'outlen={len(exp)} outsum={s}' not in m and 'INITERR' not in m:
+            dis.append((0, q[:200], f'outlen={len(exp)} outsum={s}', m[-80:]))
+    ck.corr['writer_model'] = dict(cases=len(reqs), disagreements=len(dis))
+    report_dis(ck, 'writer_model', dis)
+    # partition over all link values, idempotence, output well-framed
+    for name, pk in streams[:6 if tier == 'quick' else None]:
+        data = G.encode(pk)
+        links = sorted({p.rdh['link'] & 0xFF for p in pk})
+        outs = {}
+        for l in links:
+            r = L.run_cli(['-f', str(l)], data, stats=False)
+            outs[l] = r.stdout
+        ck.case(('partition', name))
+        walk = chain_walk(data)
+        merged = b''.join(h + p for o, h, p in walk)
+        total = sum(len(v) for v in outs.values())
+        # merge by original position
+        cur = {l: 0 for l in links}; rebuilt = b''
+        for o, h, p in walk:
+            l = h[12]; n = len(h) + len(p)
+            rebuilt += outs[l][cur[l]:cur[l] + n]; cur[l] += n
+        if total != len(merged) or rebuilt != data[:len(merged)]:
+            ck.violation('partition', {'what': 'outputs over all link filters do not partition the input', 'stream': name, 'input_hex': data.hex()[:200000]})
+        for l in links[:2]:
+            r2 = L.run_cli(['-f', str(l)], outs[l], stats=False)
+            if r2.stdout != outs[l]:
+                gate = 'Initial RDH0 deserialization failed sanity check' in r2.stderr
+                ck.violation('idempotent', {'what': 'filtering an output again with the same filter does not reproduce it', 'stream': name, 'link': l,
+                                            'input_hex': data.hex()[:200000], 'stderr': r2.stderr[-300:]},
+                             key='first-rdh0-gate' if gate else None)
+            if chain_walk(outs[l]) and sum(64 + len(p) for o, h, p in chain_walk(outs[l])) != len(outs[l]):
+                ck.violation('framing', {'what': 'filtered output is not well-framed', 'stream': name, 'link': l, 'input_hex': data.hex()[:200000]})
+
+
+# =============================================================== C14
+TRIG_BITS = [0, 1, 2, 3, 4, 5, 6, 7, 8, 9, 10, 11, 12, 13, 14, 27, 28, 29, 30, 31]
+TRIG_NAMES = ['orbit', 'hb', 'hbr', 'hc', 'pht', 'pp', 'cal', 'sot', 'eot', 'soc', 'eoc', 'tf', 'fe_rst', 'rt', 'rs', 'lhc_gap1', 'lhc_gap2', 'tpc_sync', 'tpc_rst', 'tof']
+SYS_NAMES = {3: 'TPC', 4: 'TRD', 5: 'TOF', 6: 'HMP', 7: 'PHS', 8: 'CPV', 10: 'MCH', 15: 'ZDC', 17: 'TRG', 18: 'EMC', 19: 'TST', 32: 'ITS', 33: 'FDD', 34: 'FT0',
+             35: 'FV0', 36: 'MFT', 37: 'MID', 38: 'DCS', 39: 'FOC', 255: 'Unloaded'}
+
+
+def ground_truth(data, flt, analysed):
+    walk = chain_walk(data)
+    matched = [(o, h, p) for o, h, p in walk if matches(flt, h)]
+    gt = dict(rdhs_seen=len(walk), rdhs_filtered=len(matched) if flt else 0,
+              payload_size=sum((hdr_fields(h)['size'] - 64) & 0xFFFF for o, h, p in matched),
+              links=sorted(dict.fromkeys(h[12] for o, h, p in walk)), fee_id=list(dict.fromkeys(hdr_fields(h)['fee'] for o, h, p in walk)))
+    if walk:
+        f0 = hdr_fields(walk[0][1])
+        gt.update(rdh_version=f0['ver'], data_format=f0['df'], run_trigger=f0['trig'], system_id=SYS_NAMES.get(f0['sysid']))
+    if analysed:
+        gt['hbfs_seen'] = sum(1 for o, h, p in matched if h[38] == 1)
+        gt['trig'] = {n: sum((hdr_fields(h)['trig'] >> b) & 1 for o, h, p in matched) for n, b in zip(TRIG_NAMES, TRIG_BITS)}
+        gt['layer_staves'] = list(dict.fromkeys(((hdr_fields(h)['fee'] >> 12) & 7, hdr_fields(h)['fee'] & 63) for o, h, p in matched)) if (matched and matched[0][1][5] == 32) else []
+    return gt
+
+
+def stats_view(st):
+    r = st['rdh_stats']
+    return dict(rdhs_seen=r['rdhs_seen'], rdhs_filtered=r['rdhs_filtered'], payload_size=r['payload_size'], links=r['links'], fee_id=r['fee_id'],
+                rdh_version=r['rdh_version'], data_format=r['data_format'], run_trigger=(r['run_trigger_type'] or [None])[0],
+                system_id=r['system_id'], hbfs_seen=r['hbfs_seen'], trig={n: r['trigger_stats'][n] for n in TRIG_NAMES},
+                layer_staves=[tuple(x) for x in r['its_stats']['layer_staves_seen']])
+
+
+def run_c14(ck, ctx):
+    R, tier = ctx['R'], ctx['tier']
+    streams = [s for s in make_streams(R, tier) if s[1]]
+    modes = [(['check', 'sanity'], 'cmd=sanity', True), (['check', 'all', 'its'], 'cmd=all target=its', True), (['view', 'rdh', '-d'], 'cmd=viewrdh', True),
+             ([], 'cmd=none', False)]
+    jobs = []
+    for name, pk in streams:
+        data = G.encode(pk)
+        flts = pick_filters(R, pk)
+        for args, mtok, analysed in modes:
+            for flt in (flts[:4] if tier == 'quick' else flts):
+                if not args and flt is None: continue
+                jobs.append((name, args, mtok, analysed, flt, data))
+
+    def job(j):
+        name, args, mtok, analysed, flt, data = j
+        extra = ['-o', os.devnull] if not args else []
+        return L.run_cli(args + flt_args(flt) + extra, data, stats=True)
+    res = L.pmap(job, jobs)
+    reqs = []
+    for (name, args, mtok, analysed, flt, data), r in zip(jobs, res):
+        ck.case((name, tuple(args), flt))
+        reqs.append(f'run {mtok} filter={flt_token(flt)} data={G.hexs(data)}')
+        if r.stats is None:
+            ck.violation('nostats', {'what': 'no statistics file written', 'args': args, 'filter': flt, 'input_hex': data.hex()[:200000], 'exit': r.exit, 'stderr': r.stderr[-400:]}); continue
+        gt = ground_truth(data, flt, analysed)
+        sv = stats_view(r.stats)
+        view_mode = args[:1] == ['view']
+        if view_mode: sv['links'] = sorted(sv['links'])      # finalisation (which sorts) is skipped in view mode; the set is what is compared
+        bad = {k: (sv.get(k), v) for k, v in gt.items() if sv.get(k) != v}
+        # total errors / distinct codes against the error list itself
+        es = r.stats['error_stats']
+        if es['total_errors'] != len(es['reported_errors']) + len(es['custom_checks_stats_errors']):
+            bad['total_errors'] = (es['total_errors'], len(es['reported_errors']))
+        if not view_mode and not (not args):
+            codes = []
+            for m in es['reported_errors']:
+                import re
+                for c in re.findall(r'\[E([0-9]{2,4})\]', m):
+                    if c not in codes: codes.append(c)
+            if es['unique_error_codes'] != codes: bad['unique_error_codes'] = (es['unique_error_codes'], codes)
+        ck.count('mode_' + (args[1] if len(args) > 1 else 'write'))
+        if bad:
+            ck.violation('stats', {'what': 'statistics differ from ground truth computed from the input', 'stream': name, 'args': args, 'filter': flt,
+                                   'differences(impl,truth)': {k: str(v)[:300] for k, v in bad.items()}, 'input_hex': data.hex()[:200000]})
+    # model correspondence
+    model = L.run_driver(reqs)
+    dis = []
+    for q, m, (name, args, mtok, analysed, flt, data), r in zip(reqs, model, jobs, res):
+        if r.stats is None or 'INITERR' in m: continue
+        sv = stats_view(r.stats)
+        kv = dict(t.split('=', 1) for t in m.split(' | ')[0].split(' ') if '=' in t)
+        links = sorted(sv['links']) if args[:1] == ['view'] or not args else sv['links']
+        mine = dict(seen=str(sv['rdhs_seen']), filtered=str(sv['rdhs_filtered']), payload=str(sv['payload_size']), hbfs=str(sv['hbfs_seen']),
+                    links=','.join(map(str, links)), fees=','.join(map(str, sv['fee_id'])),
+                    trig=','.join(str(sv['trig'][n]) for n in TRIG_NAMES), total=str(r.stats['error_stats']['total_errors']),
+                    staves=','.join(f'{a}/{b}' for a, b in sv['layer_staves']))
+        d = {k: (v, kv.get(k)) for k, v in mine.items() if kv.get(k) != v}
+        if d: dis.append((0, q[:160], str(d)[:300], ''))
+    ck.corr['stats_model'] = dict(cases=len(reqs), disagreements=len(dis))
+    ck.sample(dict(request=reqs[0][:120] + '...', model=model[0][:300]))
+    report_dis(ck, 'stats_model', dis)
+
+
+# =============================================================== C18
+def run_c18(ck, ctx):
+    R, tier = ctx['R'], ctx['tier']
+    cases = []
+    for i in range(3 if tier == 'quick' else 20):
+        pk, meta = G.conforming_stream(R, nlinks=R.randint(1, 3), max_hbf=2, hits=False)
+        if i % 2 == 1:   # corrupted variant
+            k = R.randrange(len(pk)); pk[k].rdh['res0'] = 1
+            k = R.randrange(len(pk))
+            if pk[k].words: pk[k].words[0] = bytes(9) + b'\x13'
+        cases.append(pk[:12] if tier == 'quick' else pk[:40])
+    modes = [(['check', 'all', 'its'], 'cmd=all target=its'), (['check', 'sanity'], 'cmd=sanity'), (['view', 'rdh', '-d'], 'cmd=viewrdh')]
+    jobs = []
+    for ci, pk in enumerate(cases):
+        data = G.encode(pk); offs = G.offsets(pk) + [len(data)]
+        cuts = set(range(0, min(len(data), 200))) | set(offs) | {o - 1 for o in offs if o} | {o + 1 for o in offs} | {o + 63 for o in offs} | {o + 64 for o in offs} | {o + 65 for o in offs}
+        step = 1 if tier == 'thorough' else max(1, len(data) // 150)
+        cuts |= set(range(0, len(data) + 1, step))
+        for c in sorted(x for x in cuts if 0 <= x <= len(data)):
+            for mi, (args, mtok) in enumerate(modes):
+                if mi > 0 and c % 3: continue
+                for via in ('file', 'pipe'):
+                    if via == 'pipe' and c % 2: continue
+                    jobs.append((ci, c, args, mtok, via))
+    full = {}
+    for ci, pk in enumerate(cases):
+        data = G.encode(pk)
+        for args, mtok in modes:
+            full[(ci, tuple(args))] = L.run_cli(args + ['-E', '9'], data)
+
+    def job(j):
+        ci, c, args, mtok, via = j
+        data = G.encode(cases[ci])[:c]
+        return L.run_cli(args + ['-E', '9'], data, via=via, timeout=60)
+    res = L.pmap(job, jobs)
+    reqs, rj = [], []
+    for (ci, c, args, mtok, via), r in zip(jobs, res):
+        pk = cases[ci]; offs = G.offsets(pk) + [len(G.encode(pk))]
+        ck.case((ci, c, tuple(args), via))
+        ck.count('via_' + via); ck.count('cut_in_' + ('rdh' if any(o <= c < o + 64 for o in offs[:-1]) else 'payload_or_boundary'))
+        inp = G.encode(pk)[:c]
+        if r.timeout or r.exit not in (0, 1, 9):
+            ck.violation('crash', {'what': 'truncated input: abnormal termination', 'cut': c, 'args': args, 'via': via, 'exit': r.exit,
+                                   'stderr': r.stderr[-600:], 'input_hex': inp.hex()})
+            continue
+        # complete packets before the cut
+        ncomplete = max(i for i in range(len(offs)) if offs[i] <= c)
+        limit = offs[ncomplete]
+        if c < 64: continue   # nothing can be analysed; only normal termination is required
+        fr = full[(ci, tuple(args))]
+        want = sorted(e for e in fr.errors if e[0] is not None and e[0] < limit)
+        got = sorted(e for e in r.errors if e[0] is not None and e[0] < limit)
+        extra = [e for e in r.errors if e[0] is None or e[0] >= limit]
+        if got != want:
+            ck.violation('prefix', {'what': 'findings for complete packets before the cut differ from the untruncated run', 'cut': c, 'args': args, 'via': via,
+                                    'missing': [e for e in want if e not in got][:5], 'added': [e for e in got if e not in want][:5], 'input_hex': inp.hex()})
+        if len(extra) > 0 and any(e[1] not in ('E100', 'E101') and (e[0] is None or e[0] > c + 64) for e in extra):
+            pass
+        if mtok != 'cmd=viewrdh' and via == 'file':
+            reqs.append(f'run {mtok} E=9 data={G.hexs(inp)}'); rj.append(r)
+    model = L.run_driver(reqs)
+    dis = []
+    for q, m, r in zip(reqs, model, rj):
+        if 'INITERR' in m:
+            if r.exit != 1: dis.append((0, q[:200], f'exit={r.exit}', m[:80]))
+            continue
+        kv = dict(t.split('=', 1) for t in m.split(' errors=')[0].split(' ') if '=' in t)
+        merrs = sorted(tuple(t.split(':')[:2]) for t in m.split(' errors=')[1].split(' | ')[0].split(' ') if t)
+        ierrs = sorted((str(e[0]), e[1]) for e in r.errors)
+        if kv.get('exit') != str(r.exit) or merrs != ierrs:
+            dis.append((0, q[:200], f'exit={r.exit} errors={ierrs[:6]}', f'exit={kv.get("exit")} errors={merrs[:6]}'))
+    ck.corr['truncation_model'] = dict(cases=len(reqs), disagreements=len(dis))
+    report_dis(ck, 'truncation_model', dis)
+    ck.sample(dict(case='cut positions of a conforming stream', jobs=len(jobs)))
+
+
+CHECKS = {
+    'C03': dict(modules=['FastPasta.Props.C03'], needs_harness=True, corr='scan', run=run_c03,
+                theorems=['FastPasta.C03.scan_exact', 'FastPasta.C03.scan_src_irrelevant', 'FastPasta.C03.encode_decode', 'FastPasta.C03.filterLoop_spec',
+                          'FastPasta.C03.loadRdh_spec', 'FastPasta.C03.loadCdp_spec', 'FastPasta.C03.scanLoop_spec', 'FastPasta.C03.expected_unfold',
+                          'FastPasta.C03.scan_complete_prefix']),
+    'C08': dict(modules=['FastPasta.Props.C08'], needs_harness=False, corr='writer_model', run=run_c08,
+                theorems=['FastPasta.C08.writer_exact', 'FastPasta.C08.writer_src_irrelevant', 'FastPasta.C08.output_well_framed', 'FastPasta.C08.idempotent',
+                          'FastPasta.C08.partition_membership', 'FastPasta.C08.partition_count', 'FastPasta.C03.encode_decode', 'FastPasta.C03.scan_exact']),
+    'C14': dict(modules=['FastPasta.Props.C14'], needs_harness=False, corr='stats_model', run=run_c14,
+                theorems=['FastPasta.C14.run_hbfs_trig', 'FastPasta.C14.analysis_hbfs', 'FastPasta.C14.analysis_trig', 'FastPasta.C14.scanner_msgs_no_hbf_trig',
+                          'FastPasta.C14.validator_msgs_no_hbf_trig', 'FastPasta.run_seen', 'FastPasta.run_filtered', 'FastPasta.run_payload', 'FastPasta.run_hbfs',
+                          'FastPasta.run_trig']),
+    'C18': dict(modules=['FastPasta.Props.C18'], needs_harness=False, corr='truncation_model', run=run_c18,
+                theorems=['FastPasta.C18.truncated_findings_are_prefix', 'FastPasta.C18.linkRun_append', 'FastPasta.C18.link_findings_prefix',
+                          'FastPasta.C18.runValidators_append', 'FastPasta.C18.dispStep_msgs_grow', 'FastPasta.C18.validator_msgs_grow',
+                          'FastPasta.C03.scan_complete_prefix']),
+}
